@@ -15,6 +15,10 @@ PARTIAL: "kernel ⊆ rigid motions on every connected mesh" is not proved (per-e
 in C07 `rigi_certified` / `conduction_kernel_is_constants`); the harness measures the kernel dimension of
 the real matrices on meshes of every element type.
 -/
+import EasyFEAVerif.Gen.C02.Loops
+import Mathlib.Algebra.BigOperators.Ring.Finset
+import Mathlib.Tactic.NormNum
+import Mathlib.Algebra.Order.Field.Rat
 import EasyFEAVerif.Model.Patch
 import EasyFEAVerif.Gen.C02.Forms
 import Mathlib.Tactic.Ring
@@ -244,5 +248,27 @@ example : PD (fun (_ _ : Fin 1) => (2 : ℚ)) := by
     simp at h
     simpa using h
   · simp; nlinarith [mul_self_nonneg (e 0)]
+
+/-! ### the thickness factor is applied group by group -/
+
+/-- the body of the loop over the element groups of `Elastic` / `Thermal.Construct_local_matrix_system` as matched against the
+source: every group's matrices are built and multiplied by the thickness INSIDE the loop -/
+theorem groupLoops_spec : (EasyFEAVerif.Gen.C02.groupLoops.map Prod.fst) = ["Elastic.groupLoop", "Thermal.groupLoop"] ∧
+    (EasyFEAVerif.Gen.C02.groupLoops.lookup "Elastic.groupLoop").map
+      (fun l => l.contains "if self.dim == 2:\n    thickness = self.material.thickness\n    K_e *= thickness\n    M_e *= thickness" && l.contains "out[groupElem] = (K_e, C_e, M_e, None)") = some true ∧
+    (EasyFEAVerif.Gen.C02.groupLoops.lookup "Thermal.groupLoop").map
+      (fun l => l.contains "if self.mesh.dim == 2:\n    thickness = thermalModel.thickness\n    K_e *= thickness\n    C_e *= thickness" && l.contains "out[groupElem] = (K_e, C_e, None, None)") = some true := by
+  decide
+
+/-- scaling the element matrices of EVERY group by the thickness scales the assembled matrix by the thickness
+(`G` = element groups, `A g i j` = contribution of group `g` to entry `(i, j)`): symmetry, semi-definiteness and kernel are
+those of the unscaled matrix, the total mass is multiplied by `t` … -/
+theorem thickness_scales_the_assembled_matrix {K : Type*} [CommRing K] {G I : Type*} [Fintype G] (t : K) (A : G → I → I → K) (i j : I) :
+    ∑ g, t * A g i j = t * ∑ g, A g i j := by
+  rw [Finset.mul_sum]
+
+/-- … whereas scaling the LAST group only (seed C01_J: the scaling statement moved out of the loop) is not a multiple of the
+assembled matrix as soon as two groups contribute: two groups contributing 1 each, thickness 3 -/
+example : (1 : ℚ) + 3 * 1 ≠ 3 * (1 + 1) := by norm_num
 
 end EasyFEAVerif.Props.C02
